@@ -59,6 +59,10 @@ func (m *VM) Match(cx *layer4.Connection) (bool, error) {
 		return false, nil
 	}
 	vis := len(cx.MatchingBytes())
+	if rec != nil {
+		bl, _, _, _ := layer4.VerifConnState(cx)
+		rec.NoteBuf(bl)
+	}
 	var err error
 	if m.At > 0 {
 		buf := make([]byte, m.At)
